@@ -27,7 +27,7 @@ pub fn replay(cases: &[J]) -> J {
     for (ci, case) in cases.iter().enumerate() {
         tick(case);
         // 'x' stands for a run of ordinary bytes; every 50th case is also run with runs around the BufReader capacity
-        let units: Vec<usize> = if ci % 50 == 0 { vec![1, 8191, 8192, 8193] } else { vec![1] };
+        let units: Vec<usize> = if ci % 200 == 0 { vec![1, 8191, 8192, 8193, 65535, 65536, 100000] } else if ci % 50 == 0 { vec![1, 8191, 8192, 8193] } else { vec![1] };
         for unit in units {
             let mut paths = Vec::new();
             for (i, f) in case["files"].as_array().unwrap().iter().enumerate() {
